@@ -475,6 +475,10 @@ def _sym(x):
 
 
 def binop(self, op, va, vb, node):
+    if isinstance(op, ast.Sub) and isinstance(va, Num) and isinstance(vb, Num) and va.is_array and va.mid is not None \
+            and va.mid == vb.mid and va.whole and vb.whole:
+        # D8: both operands are the same storage -- the difference is identically zero
+        self.events.append(('self-diff', node, self.cur.qname if self.cur else ''))
     # python constants
     if _isnumconst(va) and _isnumconst(vb):
         r = _const_binop(op, va.v, vb.v)
@@ -898,6 +902,12 @@ def attr_of(self, v, attr, st, n):
                 if nv.cplx is False:
                     r.zero = True
                 r.conj = 'A'
+            if isinstance(v, Num) and v.is_array:
+                # x.real is x itself for a real array and a strided view of the storage of a complex one
+                if attr == 'real':
+                    self.share(r, v, whole=(nv.cplx is False))
+                elif nv.cplx is True:
+                    self.share(r, v, whole=False)
             return r
         if attr == 'size':
             if nv.shape is not None and all(d is not None for d in nv.shape):
@@ -918,6 +928,10 @@ def attr_of(self, v, attr, st, n):
                 r.seg = list(v.seg)
                 r.segax = (len(nv.shape) - 1 - v.segax)
             r.view_of = nv.view_of
+            if nv.shape is not None and len(nv.shape) == 2 and isinstance(nv.q, tuple):
+                from . import charge as Q
+                r.q = Q.lin2(nv.q[2], nv.q[1], nv.q[3]) if Q.is_lin2(nv.q) else None
+            self.share(r, v, whole=False)
             return r
         if attr == 'dtype':
             return Opaque('dtype:' + {True: 'complex', False: 'float', None: '?'}[nv.cplx])
@@ -1297,8 +1311,26 @@ def index_value(self, v, idx, node):
                     r.q = Q.q_index(nv.q, ab)
         elif self.d4:
             r.q = nv.q if isinstance(nv.q, Aff) or nv.q == 'any' else None
+            if len(shape) == 2 and len(idxs) in (1, 2) and nv.q is not None and not isinstance(nv.q, Aff) and nv.q != 'any':
+                from . import charge as Q
+                rd = _axis_desc(idxs[0], shape[0])
+                cd = _axis_desc(idxs[1], shape[1]) if len(idxs) == 2 else ('slice', Aff(0), 1)
+                if rd is not None and cd is not None:
+                    r.q = Q.index2(nv.q, rd, cd)
+        if len(shape) == 2 and isinstance(v, Num) and isinstance(nv.amap, list):
+            # block maps through 2-D indexing: a row M[e]; column reversal M[:, ::-1]; anything else keeps the map of M
+            rd = _axis_desc(idxs[0], shape[0])
+            cd = _axis_desc(idxs[1], shape[1]) if len(idxs) == 2 else ('slice', Aff(0), 1)
+            full_r = isinstance(idxs[0], SliceV) and idxs[0].lo is None and idxs[0].hi is None and idxs[0].step is None
+            if len(idxs) == 1 and rd is not None and rd[0] == 'int':
+                r.amap = None
+                r.rowof = (nv.amap, rd[1])
+            elif len(idxs) == 2 and full_r and isinstance(idxs[1], SliceV) and idxs[1].lo is None and idxs[1].hi is None \
+                    and cd is not None and cd[2] == -1 and shape[1] is not None:
+                r.amap = amap_fliplr(nv.amap, shape[1])
         if fancy is None and r.is_array:
             r.view_of = nv.view_of          # basic slicing returns a view
+            self.share(r, v, whole=False)
         if fancy is not None:
             r.org = None if fancy == 'none' else fancy
         elif any(isinstance(ix, SliceV) for ix in idxs):
@@ -1332,6 +1364,64 @@ def index_value(self, v, idx, node):
         return TopV('subscript of ext')
     self.unsupported('subscript of %s' % type(v).__name__, node)
     return TopV('subscript')
+
+
+def amap_fliplr(blocks, ncols):
+    """block map of M[:, ::-1]: entry (i,k) holds what M had at (i, ncols-1-k)"""
+    if not isinstance(blocks, list):
+        return blocks
+    out = []
+    for (r0, r1, k0, k1, ai, ak, c, src, cj) in blocks:
+        out.append((r0, r1, ncols - k1, ncols - k0, ai, -ak, c + (ncols - 1).scale(ak), src, cj))
+    return out
+
+
+def amap_reduce(blocks):
+    """drop blocks that another block with the same map covers (single rows peeled off a loop)"""
+    if not isinstance(blocks, list):
+        return blocks
+    keep = []
+    for i, a in enumerate(blocks):
+        covered = False
+        for j, b in enumerate(blocks):
+            if i == j or repr(a[2:]) != repr(b[2:]):
+                continue
+            peeled = a[1] == a[0] + 1 and a[0] == b[0]        # the first row of b's loop, seen concretely in the peeled pass
+            if ((aff_le(b[0], a[0]) and aff_le(a[1], b[1])) or peeled) and (repr(a[:2]) != repr(b[:2]) or j < i):
+                covered = True
+                break
+        if not covered:
+            keep.append(a)
+    return keep
+
+
+def _axis_desc(ix, n):
+    """one index of a subscript as ('int', position) or ('slice', first position, step +-1); None when not affine"""
+    from . import segmap
+    from .prims import _int_aff
+    if isinstance(ix, SliceV):
+        stp = 1
+        if ix.step is not None:
+            sa_ = _int_aff(ix.step)
+            if sa_ is None or not sa_.is_const() or int(sa_.c) not in (1, -1):
+                return None
+            stp = int(sa_.c)
+        if ix.lo is None:
+            lo = Aff(0) if stp == 1 else ((n - 1) if n is not None else None)
+        else:
+            la = _int_aff(ix.lo)
+            lo = segmap.norm_index(la, n) if (la is not None and n is not None) else None
+            if lo is None:
+                lo = la
+        return ('slice', lo, stp)
+    ia = _asint(ix)
+    if ia is not None and ia.a is not None:
+        ab = ia.a
+        if n is not None:
+            ab2 = segmap.norm_index(ab, n)
+            ab = ab2 if ab2 is not None else ab
+        return ('int', ab)
+    return None
 
 
 def e_Subscript(self, n, st):
